@@ -155,6 +155,27 @@ func mkTextTarget() target {
 			}
 		},
 		close: func() {},
+		probe: func(i int) string {
+			q := ix.NewSearch().WithK([]int{0, 100000}[i%2]) // no cut: a cut inside a run of equal scores may keep any of its members
+			switch (i / 4) % 4 {
+			case 0:
+				q = q.WithQuery("common")
+			case 1:
+				q = q.WithQuery(fmt.Sprintf("token%d", i%5), "common").WithScoreAggregation(comet.MaxAggregation)
+			case 2:
+				ids := make([]uint32, 0, 3000)
+				for g := 0; g < 16; g++ {
+					for j := 1; j <= 150; j++ {
+						ids = append(ids, uint32(g*100000+j))
+					}
+				}
+				q = q.WithQuery("common token1").WithDocumentIDs(ids...)
+			default:
+				q = q.WithQuery("token2", "token3").WithScoreAggregation(comet.MeanAggregation)
+			}
+			res, err := q.Execute()
+			return fingerprintTxt(res, err)
+		},
 	}
 }
 
@@ -175,6 +196,51 @@ func mkMetaTarget() target {
 			ix.WriteTo(&buf)
 		},
 		close: func() {},
+		// sixteen query shapes (every operator, groups, an EMPTY first group, negations): searches hold
+		// the read lock only, so none of them may write to the index's own bitmaps
+		probe: func(i int) string {
+			q := ix.NewSearch()
+			switch i % 16 {
+			case 0:
+			case 1:
+				q = q.WithFilters(comet.Eq("all", "x"))
+			case 2:
+				q = q.WithFilters(comet.Ne("all", "y"))
+			case 3:
+				q = q.WithFilters(comet.Gt("n", 3))
+			case 4:
+				q = q.WithFilters(comet.Lte("n", 2))
+			case 5:
+				q = q.WithFilters(comet.Range("n", 1, 4))
+			case 6:
+				q = q.WithFilters(comet.In("all", "x", "z"))
+			case 7:
+				q = q.WithFilters(comet.NotIn("all", "z"))
+			case 8:
+				q = q.WithFilters(comet.Exists("n"))
+			case 9:
+				q = q.WithFilters(comet.NotExists("zzz"))
+			case 10:
+				q = q.WithFilterGroups(&comet.FilterGroup{Logic: comet.OR}, &comet.FilterGroup{Logic: comet.OR, Filters: []comet.Filter{comet.Eq("n", 1)}})
+			case 11:
+				q = q.WithFilterGroups(&comet.FilterGroup{Logic: comet.AND, Filters: []comet.Filter{comet.Gt("n", 1), comet.Lt("n", 5)}},
+					&comet.FilterGroup{Logic: comet.OR, Filters: []comet.Filter{comet.Eq("n", 0), comet.Eq("n", 6)}})
+			case 12:
+				q = q.WithFilters(comet.Not(comet.Eq("n", 1)))
+			case 13:
+				q = q.WithFilters(comet.Ne("n", 3), comet.Exists("all"))
+			case 14:
+				q = q.WithFilterGroups(&comet.FilterGroup{Logic: comet.AND}, &comet.FilterGroup{Logic: comet.AND, Filters: []comet.Filter{comet.Gte("n", 6)}},
+					&comet.FilterGroup{Logic: comet.OR, Filters: []comet.Filter{comet.NotIn("all", "q")}})
+			default:
+				q = q.WithFilters(comet.Gte("n", 6))
+			}
+			res, err := q.Execute()
+			if err != nil {
+				return "E"
+			}
+			return fmt.Sprint(idsOf(res))
+		},
 	}
 }
 
@@ -197,6 +263,29 @@ func mkHybridTarget() target {
 		},
 		other: func(r *rand.Rand) { h.Flush() },
 		close: func() {},
+		probe: func(i int) string {
+			q := h.NewSearch().WithK(1 << 20) // no cut (see the text probe)
+			switch i % 8 {
+			case 0:
+				q = q.WithVector(vecOf(uint32(3*i+1), 4))
+			case 1:
+				q = q.WithText("common")
+			case 2:
+				q = q.WithVector(vecOf(uint32(i), 4)).WithText("words").WithMetadata(comet.Eq("all", "x"))
+			case 3:
+				q = q.WithMetadata(comet.Ne("all", "y"))
+			case 4:
+				q = q.WithMetadataGroups(&comet.FilterGroup{Logic: comet.OR}, &comet.FilterGroup{Logic: comet.OR, Filters: []comet.Filter{comet.Eq("all", "x")}})
+			case 5:
+				q = q.WithVector(vecOf(uint32(i), 4)).WithMetadataGroups(&comet.FilterGroup{Logic: comet.AND}, &comet.FilterGroup{Logic: comet.AND, Filters: []comet.Filter{comet.Exists("all")}})
+			case 6:
+				q = q.WithText("common", "words").WithMetadata(comet.NotIn("all", "z"))
+			default:
+				q = q.WithVector(vecOf(uint32(i), 4)).WithText("common")
+			}
+			res, err := q.Execute()
+			return fingerprintHyb(res, err)
+		},
 	}
 }
 
@@ -474,12 +563,13 @@ func genC11(r *rand.Rand, t *Trace, thorough bool) {
 			readPhase(tg, kind, r, opsPer, t)
 			contend(mkContendedVectorTarget(kind, r), kind, nContend, 16, t)
 		}
-		stress(mkTextTarget(), 5, r, gs[r.Intn(len(gs))], opsPer, true, t)
-		contend(mkTextTarget(), 5, nContend, 16, t)
-		stress(mkMetaTarget(), 6, r, gs[r.Intn(len(gs))], opsPer, true, t)
-		contend(mkMetaTarget(), 6, nContend, 16, t)
-		stress(mkHybridTarget(), 7, r, gs[r.Intn(len(gs))], opsPer, true, t)
-		contend(mkHybridTarget(), 7, nContend, 16, t)
+		for j, mk := range []func() target{mkTextTarget, mkMetaTarget, mkHybridTarget} {
+			code := 5 + j
+			tg := mk()
+			stress(tg, code, r, gs[r.Intn(len(gs))], opsPer, true, t)
+			readPhase(tg, code, r, opsPer, t)
+			contend(mk(), code, nContend, 16, t)
+		}
 		storeCaseCounter++
 		d1 := filepath.Join(work, "stores", fmt.Sprintf("x%d_%d", os.Getpid(), storeCaseCounter))
 		os.RemoveAll(d1)
